@@ -192,6 +192,13 @@ Definition spec_rootb (cfg : config) (ns : list node) (g : graph) (i : nat) : bo
 Definition spec_roots (cfg : config) (ns : list node) (g : graph) : list nat :=
   filter (spec_rootb cfg ns g) (seq 0 (size g)).
 
+(* the selection a repaired selector would compute: same traversal, roots of the property's reading *)
+Definition select_for_build_spec (cfg : config) (ns : list node) (g : graph) : sel_result :=
+  match select_roots g (plat_okb cfg ns) (spec_roots cfg ns g) with
+  | None => PlatformError
+  | Some m => Selected (normalize g m)
+  end.
+
 (* ------------------------------------------------------------------ path-enumerating traversals *)
 
 (* GetAncestors (next = deps g) and GetDescendants (next = dependants g): every node is
